@@ -1450,3 +1450,10 @@ fn replay(_opts: &Opts, d: &Value, acc: &mut Acc) {
         acc.fail(f);
     }
 }
+
+/// libFuzzer entry: one generated case
+pub fn fuzz_case(genome: &[u8], acc: &mut Acc) -> Vec<Failure> {
+    let mut g = G::new(genome);
+    let c = gen_case(&mut g);
+    check_case(&c, "fuzz", acc)
+}
